@@ -144,6 +144,14 @@ Proof.
   rewrite gen_connect_is_model. destruct (connect_with parse m id d) as [m1 st]. rewrite IH. reflexivity.
 Qed.
 
+(* ------------------------------------------------------------ the listings of a RoutesMapper *)
+Theorem gen_get_routes_is_model m b : gen_get_routes m b = get_routes_model m b.
+Proof. unfold gen_get_routes, get_routes_model. destruct b; reflexivity. Qed.
+Theorem gen_has_routes_is_model m : gen_has_routes m = has_routes_model m.
+Proof. unfold gen_has_routes, has_routes_model. destruct (l_is_nil (routelist m)); reflexivity. Qed.
+Theorem gen_get_route_is_model m n : gen_get_route m n = get_route_model m n.
+Proof. reflexivity. Qed.
+
 (* ------------------------------------------------------------ RoutesMapper.__call__ *)
 (* what is observed of a call: the selection, and the predicate-call events that called at
    least one predicate (a route without predicates leaves no trace) *)
